@@ -26,6 +26,7 @@ type Engine struct {
 	contracts      map[string]*Contract
 	ifaceContracts map[string]*Contract
 	functypes      map[string]*Contract
+	fieldFuncs     map[string]*Contract
 	contractPkg    map[*Contract]*types.Package
 	specs          map[string]*SpecFunc
 	axioms         []*Axiom
@@ -61,7 +62,7 @@ func (e *Engine) cfgOf(fn *ssa.Function) *cfgInfo {
 
 func LoadEngine(repo string, trustedDir string, patterns []string) (*Engine, error) {
 	e := &Engine{repo: repo, pkgByName: map[string]*types.Package{}, pkgByPath: map[string]*types.Package{}, funcs: map[string]*ssa.Function{},
-		contracts: map[string]*Contract{}, ifaceContracts: map[string]*Contract{}, functypes: map[string]*Contract{}, contractPkg: map[*Contract]*types.Package{},
+		contracts: map[string]*Contract{}, ifaceContracts: map[string]*Contract{}, functypes: map[string]*Contract{}, fieldFuncs: map[string]*Contract{}, contractPkg: map[*Contract]*types.Package{},
 		specs: map[string]*SpecFunc{}, ghostFields: map[string]*GhostField{}, consts: map[string]*big.Int{}, cfgs: map[*ssa.Function]*cfgInfo{}, guardByField: map[string]*guardDecl{}}
 	cfg := &packages.Config{Mode: packages.LoadAllSyntax, Dir: repo, BuildFlags: []string{"-tags=verif"},
 		Env: append(os.Environ(), "GOFLAGS=-mod=mod", "GOPROXY=off", "GOSUMDB=off", "GOTOOLCHAIN=local")}
@@ -232,6 +233,8 @@ func (e *Engine) addSpecFile(sf *SpecFile, pkg *types.Package) {
 			e.ifaceContracts[c.Key] = c
 		case "functype":
 			e.functypes[c.Key] = c
+		case "fieldfunc":
+			e.fieldFuncs[c.Key] = c
 		}
 		if pkg != nil {
 			e.contractPkg[c] = pkg
@@ -265,6 +268,10 @@ func (e *Engine) addSpecFile(sf *SpecFile, pkg *types.Package) {
 			e.ghostOrder = append(e.ghostOrder, g.Name)
 		}
 		e.ghostFields[g.Name] = g
+		if g.Counter {
+			counterGhosts["g:"+g.Name] = true
+			e.immutableNote = append(e.immutableNote, "ghost counter "+g.Name+" (uncontracted callees are assumed not to perform the counted operation)")
+		}
 	}
 	e.guards = append(e.guards, sf.Guards...)
 	for _, im := range sf.Immutable {
